@@ -29,28 +29,6 @@ def _cp(s):
     return '[' + ', '.join(str(ord(c)) for c in s) + ']'
 
 
-def _int(node, what):
-    if isinstance(node, ast.Constant) and isinstance(node.value, int) and not isinstance(node.value, bool):
-        return node.value
-    if isinstance(node, ast.UnaryOp) and isinstance(node.op, ast.USub) and isinstance(node.operand, ast.Constant):
-        return -node.operand.value
-    raise TranslatorError(f'{what}: integer literal expected, got {ast.unparse(node)}')
-
-
-def _str(node, what):
-    if isinstance(node, ast.Constant) and isinstance(node.value, str):
-        return node.value
-    raise TranslatorError(f'{what}: string literal expected, got {ast.unparse(node)}')
-
-
-def _module_assign(tree, name):
-    for st in tree.body:
-        if isinstance(st, ast.Assign) and len(st.targets) == 1 and isinstance(st.targets[0], ast.Name) \
-                and st.targets[0].id == name:
-            return st.value
-    raise TranslatorError(f'module-level assignment {name} not found')
-
-
 def _find(tree, qual):
     node = tree
     for p in qual.split('.'):
